@@ -6,6 +6,7 @@ total (all storages, all passes, online finalisation) and turned from asserts
 into a violation log tagged by property id. The monitor never applies ==, `in`
 or hashing to library action objects; it works on normalised tuples.
 """
+import gc
 import hashlib
 import signal
 import sys
@@ -497,6 +498,19 @@ def execute(cfg, extra_next=3, want_trace=False, action_hook=None):
                     break
                 if stops:
                     mon.v("C09", "resumes-after-stop", "action after StopIteration")
+                if cfg.get("iter") == "loops" and type(a).__name__ in ("EndForward", "EndReverse"):
+                    # driver style of the class docstrings: one `for action in schedule:` loop per phase,
+                    # left with `break` at EndForward / EndReverse; the next phase starts a new loop.
+                    # The abandoned iterator is dropped (and collected) before the next one is obtained.
+                    src = None
+                    gc.collect()
+                    try:
+                        src = quiet(iter, sched)
+                    except CaseTimeout:
+                        raise
+                    except Exception as e:
+                        mon.v("C17", "valid-config-raises:iter", "iter(schedule) raised %s: %s" % (type(e).__name__, e))
+                        src = sched
                 try:
                     if action_hook is not None:
                         for pred, detail in action_hook(a):
